@@ -859,7 +859,9 @@ int main(int argc, char** argv) {
                 // a long-lived evaluator: it holds other values for every variable (masked ones included)
                 // than the ones this solve is given
                 std::map<Tree::Id, float> stale;
-                { int k = 0; for (auto& v : vars) stale[v.first] = v.second + 7.25f * (++k); }
+                // (with a trailing "Z": a variable given +-0 is held as the zero of the OTHER sign, which compares equal)
+                const bool zmode = t.back() == "Z";
+                { int k = 0; for (auto& v : vars) { ++k; stale[v.first] = (zmode && v.second == 0.0f) ? -v.second : v.second + 7.25f * k; } }
                 JacobianEvaluator je(deckp, stale);
                 auto res = Solver::findRoot(je, deckp->tape, vars, pos, mask, gas);
                 Solver::verif_trace = nullptr;
@@ -889,7 +891,8 @@ int main(int argc, char** argv) {
                 for (auto& m : mask) if (res.second.count(m)) masked_ok = false;
                 for (auto& v : res.second) {
                     bool in_deck = deck.vars.right.find(v.first) != deck.vars.right.end();
-                    if (!in_deck && memcmp(&v.second, &vars[v.first], 4) != 0) absent_ok = false;
+                    // unchanged as a number: -0 - step * 0 may come back as +0, which is the same value
+                    if (!in_deck && memcmp(&v.second, &vars[v.first], 4) != 0 && !(v.second == vars[v.first])) absent_ok = false;
                 }
                 out(std::string("SO residual=") + (same ? "1" : "0") + " recomputed=" + hex32(rr) + " masked=" + (masked_ok ? "1" : "0")
                     + " absent=" + (absent_ok ? "1" : "0") + " gradcalls=" + std::to_string(std::count_if(g_trace.begin(), g_trace.end(), [](const std::string& e) { return e[0] == 'G'; })));
